@@ -1185,12 +1185,14 @@ class InertiaMoment(UnitBase):
         else:
             target_value = self.__value
 
+        converted = InertiaMoment(value=target_value, unit=target_unit)
+
         if inplace:
-            self.__value = target_value
-            self.__unit = target_unit
+            self.__value = converted.value
+            self.__unit = converted.unit
             return self
         else:
-            return InertiaMoment(value=target_value, unit=target_unit)
+            return converted
 
 
 class Torque(UnitBase):
@@ -1845,14 +1847,19 @@ class TimeInterval(Time):
            >>> dt
            3600.0 sec
         """
-        converted = super().to(target_unit=target_unit, inplace=inplace)
+        if not isinstance(inplace, bool):
+            raise TypeError("Parameter 'inplace' must be a bool.")
+
+        converted = super().to(target_unit=target_unit, inplace=False)
+        converted = TimeInterval(value=converted.value, unit=converted.unit)
 
         if inplace:
+            super().to(target_unit=target_unit, inplace=True)
             self.__value = converted.value
             self.__unit = converted.unit
             return self
         else:
-            return TimeInterval(value=converted.value, unit=converted.unit)
+            return converted
 
 
 class Length(UnitBase):
@@ -2051,12 +2058,14 @@ class Length(UnitBase):
         else:
             target_value = self.__value
 
+        converted = Length(value=target_value, unit=target_unit)
+
         if inplace:
-            self.__value = target_value
-            self.__unit = target_unit
+            self.__value = converted.value
+            self.__unit = converted.unit
             return self
         else:
-            return Length(value=target_value, unit=target_unit)
+            return converted
 
 
 class Surface(UnitBase):
@@ -2250,12 +2259,14 @@ class Surface(UnitBase):
         else:
             target_value = self.__value
 
+        converted = Surface(value=target_value, unit=target_unit)
+
         if inplace:
-            self.__value = target_value
-            self.__unit = target_unit
+            self.__value = converted.value
+            self.__unit = converted.unit
             return self
         else:
-            return Surface(value=target_value, unit=target_unit)
+            return converted
 
 
 class Force(UnitBase):
